@@ -1,0 +1,9 @@
+//go:build verif && !js
+
+package websocket
+
+// Exported wrappers around unexported pure functions, compiled only with -tags verif.
+// Used by the correspondence harness under /verif; never part of a normal build.
+
+// VerifMaskGo exposes the portable masking implementation.
+func VerifMaskGo(b []byte, key uint32) uint32 { return maskGo(b, key) }
